@@ -35,6 +35,23 @@ func (q *Sched) ExploreUnsharded() *vrt.Explorer { return q.explore(0, 1) }
 
 func (q *Sched) explore(sh, n int) *vrt.Explorer {
 	r := q.Run
+	if k := r.Free(); k > 0 {
+		// auxiliary pass: the same body on real goroutines; the semantic oracle still runs, but its
+		// failures are not replayable and are only noted — the pass exists for the race detector
+		for i := 0; i < k; i++ {
+			res := vrt.FreeRun(q.Body, 60*time.Second)
+			r.Count("free_runs", 1)
+			if res.Deadlock {
+				r.Note("%s: free run %d did not finish", q.Name, i)
+				break
+			}
+			if w := q.Check(res); w != "" {
+				r.Count("free_runs_failing_the_oracle", 1)
+				r.Note("%s: free run %d: %s", q.Name, i, w)
+			}
+		}
+		return &vrt.Explorer{}
+	}
 	x := &vrt.Explorer{Body: q.Body, Check: q.Check, MaxPreempt: q.MaxPreempt, MaxSteps: q.MaxSteps, Shard: sh, NShard: n}
 	dl := time.Now().Add(q.Budget)
 	x.Stop = func() bool {
@@ -73,6 +90,9 @@ func (q *Sched) explore(sh, n int) *vrt.Explorer {
 	r.Count("tree_nodes", x.TreeNodes)
 	r.Count("unstable_replays", x.Unstable)
 	r.Count("horizon_hits", x.Horizons)
+	for _, w := range x.UnstableWhy {
+		r.Note("%s: unstable: %s", q.Name, w)
+	}
 	r.Note("%s shard %d/%d: preemption bound completed=%d (max %d) executions=%d longest=%d points capped=%v", q.Name, sh, n, x.DoneBound, q.MaxPreempt, x.Executions, x.MaxPoints, x.Capped)
 	return x
 }
